@@ -36,7 +36,7 @@ func init() {
 		Rule:           "runs = 10-40 server-authorization posts (new, duplicate with changed ports or location, ban, un-ban attempt, bad / foreign signature, before registration) to 1-3 mutually forwarding servers with peers up or down, each server's list compared with its model after every post; then 6-20 client sync rounds against real servers (lists, GCA-signed bans that repeat the address / name the key only / name another address, GCA-signed migration orders with usable, banned-only or empty new lists and orders naming the current GCA) and a rogue server (orders for another device, outer signature by a foreign or the new GCA, inner signatures by the old GCA, replays of non-banned entries, valid relayed orders) with client restarts; after every round - successful or failed - the client's GCA, id and server map are compared with the model of the signature rules, the three files must decode to exactly the adopted state and a restart must resume with it; non-trivial = at least one ban was learned and one migration order (valid or forged) was presented; distinct = distinct decision signatures",
 		Real:           []string{"AuthorizedServersHandler GET/POST incl. forwarding to peers", "EquipmentMigrateHandler", "sync handler", "client sync round: parser, merge, migration adoption, persistence; client start-up load"},
 		Stub:           []string{"rogue server (harness, holding a configured server's key)", "TCP/HTTP (simulated fabric)"},
-		RequiredProbes: []string{"c17.srv.ban", "c17.srv.unban-attempt", "c17.srv.changed-ports", "c17.srv.forwarded", "c17.cli.ban-learned", "c17.cli.migration-adopted", "c17.cli.forged-order", "c17.cli.restart", "c17.cli.unban-replay", "c17.cli.forged-dup-entry", "c17.srv.altered-after-signing", "c17.cli.order-without-usable-server", "c17.cli.key-only-ban", "c17.cli.order-to-same-gca", "c17.cli.rogue-in-new-list"},
+		RequiredProbes: []string{"c17.srv.ban", "c17.srv.unban-attempt", "c17.srv.changed-ports", "c17.srv.forwarded", "c17.cli.ban-learned", "c17.cli.migration-adopted", "c17.cli.forged-order", "c17.cli.restart", "c17.cli.unban-replay", "c17.cli.forged-dup-entry", "c17.srv.altered-after-signing", "c17.cli.order-without-usable-server", "c17.cli.key-only-ban", "c17.cli.order-to-same-gca", "c17.cli.rogue-in-new-list", "c17.srv.order-with-bad-inner-entry"},
 		RequiredSites:  []string{"srvauth.between", "csync.premerge", "csync.postmerge"},
 	})
 }
@@ -339,6 +339,21 @@ func runC17(m *Sim) {
 				}
 				if len(list) == 0 || (len(list) == 1 && list[0].Banned) {
 					m.Probe("c17.cli.order-without-usable-server")
+				}
+				if m.C.Chance("order-with-bad-inner-entry", 1, 3) {
+					// An order the current GCA really signed whose new-server list holds
+					// an entry the NEW GCA did not sign - alone, or hidden behind a genuine
+					// entry for the same key: every server must refuse it.
+					forged := server.AuthorizedServer{PublicKey: nn.Key.Pub, Banned: true, Location: "evil.sim", HttpPort: 1, TcpPort: 1, UdpPort: 1}
+					switch m.C.Int("bad-inner-signer", 3) {
+					case 1:
+						forged = SignServer(gca, forged)
+					case 2:
+						forged = SignServer(rogue.Key, forged)
+					}
+					inner := [][]server.AuthorizedServer{{newEntry, forged}, {forged, newEntry}, {forged}}[m.C.Int("bad-inner-place", 3)]
+					nodes[m.C.Int("where", len(nodes))].DoMigrate(SignMigration(gca, server.EquipmentMigration{Equipment: dev.Key.Pub, NewGCA: newGCA.Pub, NewShortID: newID, NewServers: inner}))
+					m.Probe("c17.srv.order-with-bad-inner-entry")
 				}
 				em := SignMigration(gca, server.EquipmentMigration{Equipment: dev.Key.Pub, NewGCA: newGCA.Pub, NewShortID: newID, NewServers: list})
 				if m.C.Chance("order-to-same-gca", 1, 8) {
